@@ -66,6 +66,11 @@ def judge_conservation(leaves, pages):
             if lf['kind'] == 'fixed' and any(not o for o in occ):
                 bad.append(('fixed-missing', lf))
             continue
+        if lf.get('fixed_height'):
+            # R4: a fixed-height box that ends on a page forgets the children that overflow the page bottom: a
+            # suffix of its words may be dropped
+            while occ and len(occ[-1]) == 0:
+                occ.pop()
         if any(len(o) == 0 for o in occ):
             bad.append(('lost', lf))
             continue
@@ -91,8 +96,9 @@ def signature_of(failure, lf):
     return None
 
 
-def wide_stream(run, rng, n, tag, feats=widegen.ALL_FEATS):
-    docs = [widegen.document(rng, feats) for _ in range(n)]
+def wide_stream(run, rng, n, tag, feats=widegen.ALL_FEATS, docs=None):
+    if docs is None:
+        docs = [widegen.document(rng, feats) for _ in range(n)]
     outs = common.run_impl('impl_wide', 'render_words', [{'html': h} for h, _, _ in docs], limit=90)
     res = []
     for (html, leaves, H), (st, o) in zip(docs, outs):
